@@ -360,6 +360,34 @@ def drain (linear : Bool) : Nat → IterSt α → M (Option (List α))
       | none => pure none
       | some es => pure (some (e :: es))
 
+/-- `frozenarray.__getitem__` (static-array `get` + unwrap; frozenarrays are immutable and copyable) -/
+def frozenGet (xs : List α) (i : Int) : M α :=
+  match xs[itousize i]? with
+  | some v => pure v
+  | none => throw (.unwrapFail "Frozenarray index out of bounds")
+
+/-- state of `FrozenarrayIter` -/
+structure FIterSt (α : Type) where
+  xs : List α
+  i : Int
+
+/-- `FrozenarrayIter.__next__` (std/array.py), statement by statement -/
+def fnext (st : FIterSt α) : M (Option (α × FIterSt α)) :=
+  if st.i < (st.xs.length : Int) then do
+    let v ← frozenGet st.xs st.i
+    pure (some (v, ⟨st.xs, wrap64 (st.i + 1)⟩))
+  else pure none
+
+def fdrain : Nat → FIterSt α → M (Option (List α))
+  | 0, _ => pure none
+  | fuel + 1, st => do
+    match ← fnext st with
+    | none => pure (some [])
+    | some (e, st') => do
+      match ← fdrain fuel st' with
+      | none => pure none
+      | some es => pure (some (e :: es))
+
 /-- one iteration of the array comprehension loop body, through the emitted code:
     state = (array under construction, counter) -/
 def compStep (st : Cells α × Int) (e : α) : M (Cells α × Int) := do
